@@ -9,6 +9,7 @@ Definition safeT (b : N) (a : act) : Prop :=
   match a with
   | RmTrash b' => b' <> b
   | MvToIndex b' => b' <> b
+  | TombOrRm b' _ totr => totr = true -> b' <> b
   | _ => True
   end.
 
@@ -16,10 +17,13 @@ Lemma apply_holds_trash : forall now b P a x,
   safeT b a -> holds_trash b P x -> holds_trash b P (apply now x a).
 Proof.
   intros now b P a x Hs [t' [Hin [Hb Hp]]].
-  destruct a as [b'|b'|b' id' flag|b'|b'|b'|b'|]; simpl in *.
+  destruct a as [b'|b'|b' id' flag|b' id' totr|b'|b'|b'|b'|]; simpl in *.
   - exists t'. auto.
   - exists t'. repeat split; auto. eapply rm_keeps; eauto.
   - exists t'. auto.
+  - destruct (serves_others b' id' (d_index x)); simpl; [exists t'; auto|].
+    destruct totr; [|exists t'; auto].
+    exists t'. repeat split; auto. eapply rm_keeps; eauto.
   - exists t'. auto.
   - exists (if N.eqb (f_base t') b' then touch now t' else t'). split.
     + unfold on_file. apply in_map_iff. exists t'. split; [reflexivity|exact Hin].
@@ -71,7 +75,8 @@ Section TrashKept.
         rewrite (trash_ref_is_t s i Hs Hb) in TD. congruence.
     - apply Forall_forall. intros a Ha. unfold plan3 in Ha. apply in_flat_map in Ha. destruct Ha as [i [_ Ha]].
       destruct (consistent (group (ix d) i)); [contradiction|].
-      apply in_app_or in Ha. destruct Ha as [Ha|Ha]; apply in_map_iff in Ha; destruct Ha as [s [<- _]]; exact I.
+      apply in_app_or in Ha. destruct Ha as [Ha|Ha]; apply in_map_iff in Ha; destruct Ha as [s [<- _]]; [exact I|].
+      destruct (s_compound s); simpl; [discriminate|exact I].
     - apply Forall_forall. intros a Ha. unfold plan4 in Ha. apply in_flat_map in Ha. destruct Ha as [i [Hi Ha]].
       destruct (memN i (trash_keys d now)).
       + apply in_flat_map in Ha. destruct Ha as [s [Hs Ha]].
@@ -88,14 +93,16 @@ Section TrashKept.
       + apply in_app_or in Ha. destruct Ha as [Ha|Ha].
         * apply in_map_iff in Ha. destruct Ha as [s [<- _]]. exact I.
         * apply in_flat_map in Ha. destruct Ha as [s [Hs Ha]].
-          unfold move_to in Ha. simpl in Ha. destruct Ha as [<-|Ha].
-          -- (* removal of the destination before moving an index shard with the same name into the trash *)
-             simpl. intros Hb. apply filter_In in Hs. destruct Hs as [Hs _].
-             apply in_group in Hs. destruct Hs as [Hs _].
-             apply in_get_shards in Hs. destruct Hs as [g [e2 [Hg [He2 ->]]]]. simpl in Hb.
-             pose proof (wf_trash_names d Hwf t g e Ht Hg (eq_sym Hb) He) as Hin. rewrite Hid in Hin.
-             unfold trash_drop in Hfresh. apply memN_In in Hin. unfold ix in Hfresh. rewrite Hin in Hfresh. discriminate.
-          -- destruct (s_compound s); simpl in Ha; destruct Ha as [<-|[]]; exact I.
+          (* removal of the destination before moving an index shard with the same name into the trash *)
+          assert (Hdst : s_base s <> f_base t).
+          { intros Hb. apply filter_In in Hs. destruct Hs as [Hs _].
+            apply in_group in Hs. destruct Hs as [Hs _].
+            apply in_get_shards in Hs. destruct Hs as [g [e2 [Hg [He2 ->]]]]. simpl in Hb.
+            pose proof (wf_trash_names d Hwf t g e Ht Hg (eq_sym Hb) He) as Hin. rewrite Hid in Hin.
+            unfold trash_drop in Hfresh. apply memN_In in Hin. unfold ix in Hfresh. rewrite Hin in Hfresh. discriminate. }
+          unfold move_to in Ha. destruct (s_compound s); simpl in Ha.
+          -- destruct Ha as [<-|[]]. simpl. intros _. exact Hdst.
+          -- destruct Ha as [<-|[<-|[]]]; simpl; [exact Hdst|exact I].
     - constructor; [exact I|constructor].
   Qed.
 
